@@ -441,7 +441,37 @@ func RootLstat(r *os.Root, name string) (fs.FileInfo, error) {
 	return infoOf(n), nil
 }
 
-func RootStat(r *os.Root, name string) (fs.FileInfo, error) { return RootLstat(r, name) }
+// RootStat follows a symlink in the final component (within the root, as os.Root does).
+func RootStat(r *os.Root, name string) (fs.FileInfo, error) {
+	ri := rootOf(r)
+	full, err := ri.resolve("statat", name)
+	if err != nil {
+		ri.fs.log(Event{Op: "stat", Path: name, Rejected: true})
+		return nil, err
+	}
+	ri.fs.log(Event{Op: "stat", Path: full})
+	for hops := 0; hops < 8; hops++ {
+		n := ri.fs.find(full)
+		if n == nil {
+			return nil, notExist("statat", name)
+		}
+		if n.Kind != KLink {
+			return infoOf(n), nil
+		}
+		if strings.HasPrefix(n.Target, "/") {
+			return nil, &fs.PathError{Op: "statat", Path: name, Err: errPathEscapes{}}
+		}
+		next := path.Join(path.Dir(full), n.Target)
+		if next == ".." || strings.HasPrefix(next, "../") {
+			return nil, &fs.PathError{Op: "statat", Path: name, Err: errPathEscapes{}}
+		}
+		if ri.dir != "." && next != ri.dir && !strings.HasPrefix(next, ri.dir+"/") {
+			return nil, &fs.PathError{Op: "statat", Path: name, Err: errPathEscapes{}}
+		}
+		full = next
+	}
+	return nil, &fs.PathError{Op: "statat", Path: name, Err: fs.ErrInvalid}
+}
 
 func newFile(f *FS, n *Node, pending bool) *os.File {
 	of := new(os.File)
